@@ -154,12 +154,16 @@ class ProgramRunner(object):
             if obj is None or tgt is None:
                 return 'skip'
             coll = getattr(obj, rel)
+            # `forced`: the decision the twin run took at this step (C07) - both runs must perform the SAME
+            # session operations, and "is it in the collection already" is answered from in-memory ORM
+            # state that continuum's active_history legitimately changes before a flush
+            forced = getattr(self, 'forced', None)
             if op == 'link':
-                if tgt in coll:
+                if forced == 'skip' or (forced is None and tgt in coll):
                     return 'skip'
                 coll.append(tgt)
             else:
-                if tgt not in coll:
+                if forced == 'skip' or tgt not in coll:
                     return 'skip'
                 coll.remove(tgt)
         elif op == 'activity':
@@ -312,7 +316,7 @@ def probe_changed_entities(env, info):
 
 def run_case(case):
     """case = {'spec': ..., 'autoflush': bool, 'program': [...]}"""
-    env = envs.Env(case['spec'], autoflush=bool(case.get('autoflush')))
+    env = envs.Env(case['spec'], autoflush=bool(case.get('autoflush')), join_mode=case.get('join_mode'))
     try:
         r = ProgramRunner(env)
         obs = r.run(case['program'])
